@@ -15,6 +15,16 @@ type PropSpec struct {
 }
 
 var properties = map[string]PropSpec{
+	"C12": {
+		Level: "other",
+		Explanation: "R-CONV: a user-declared alias of Stack/Condition (or a pointer to one) reaches the same code as the native value - the necessary condition for behaving like it. ASSERT: the package recognises a Stack or Condition by a plain type assertion (which no alias satisfies) nowhere except in the two converters themselves and in three positive fast paths (isNesting, canPushNester, the Condition-side no-nesting filter) whose other branch goes through the converter; the census of such assertions is re-done on every run. FIRST: in condition.string and stack.defaultAssertionHandler a value is rendered through its own String method or the primitive stringer only on paths where both converters have been applied to that very value and declined it, so an alias that has its own String method is still rendered as the Stack/Condition it is. USES: each consumer named by the property (String on both types, IsEqual, Unmarshal on both types, Traverse's two helpers, both IsNesting, Condition.Len, both no-nesting filters, Defrag, Transfer) calls the converter(s); stackageStructsEqual applies IsEqual to the converted first operand with the converted second operand; ConvertStack/ConvertCondition return the converter's results unchanged. SELF: every (zero,false) return path of each converter is justified by a nil argument, a zero native or converted instance, or ConvertibleTo()==false evaluated on derefPtr(typOf(u), valOf(u)) of the argument itself - nothing else can decline a value (e.g. a kind test before pointers are followed).",
+		NotDecided: "that the results (String, IsEqual in both directions, Unmarshal, Traverse, ...) coincide with those of the native tree: functional equality; the rule ensures the alias reaches the native code path. derefPtr's pointer-following loop is covered for panics by C08, not for 'all levels' as a functional statement.",
+		Run: func(c *Ctx) {
+			c.ruleInv()
+			c.ruleConv()
+			c.rep.floor("R-CONV", 30)
+		},
+	},
 	"C16": {
 		Level: "other",
 		Explanation: "Marshal returns normally for every []any and ends in 'error, or an initialised receiver'. PANIC: the nil / type-assertion / bounds / reflect census restricted to everything reachable from Marshal, with preconditions checked at every call site and none allowed at the exported entry: in[0], in[1:], the CONDITION row positions 1..3 and every assertion on a label, keyword, operator or nested slice are guarded for every shape of input (empty and nested envelopes, rows of any width, wrongly typed fields). OUT: marshalDefault's 70-odd return path states each yield a non-nil error, a Stack built by a constructor, or a Condition for which extractConditionValues reported ok (= IsInit() of the Condition it returns, built only from a row of width 4); Marshal's return paths each yield a non-nil error, a receiver seated with the decoded Stack under IsInit()==true, marshalDefault's own error where it produced nothing, or - receiver already initialised - at most one Push of exactly one decoded value. LABEL: every keyword comparison is made on uc(label); the reader knows every word the writer can emit and CONDITION; an unrecognised first element yields Basic().Push(in...), a recognised one stackByWord(label).Push(in[1:]...). ROW: width 4 is required and keyword/operator/expression are read from positions 1/2/3 by checked assertions. REPROC: every nested []any entry 0..Len-1 is decoded by marshalDefault itself and replaced in place by the initialised Stack/Condition it yields.",
@@ -171,6 +181,7 @@ var properties = map[string]PropSpec{
 			c.ttCondExprHandler()
 			c.ruleCondStores()
 			c.ttCondString()
+			c.ruleCondStringEncap()
 			var roots []*ssa.Function
 			for _, m := range c.api {
 				if m.Name == "Cond" || (m.Recv == "Condition" && (strings.HasPrefix(m.Name, "Set") || m.Name == "Init" || m.Name == "Valid" || m.Name == "String" || m.Name == "Keyword" || m.Name == "Operator" || m.Name == "Expression" || m.Name == "Err")) {
@@ -209,8 +220,10 @@ var properties = map[string]PropSpec{
 			c.ttCondExprHandler()
 			c.ruleCondStores()
 			c.rulePushLoops()
+			c.ruleScanNesting()
 			c.ruleOptionWritesOnlyOpt()
 			c.rep.floor("R-TT", 5)
+			c.rep.floor("R-SCAN", 1)
 			c.rep.floor("R-APPEND", 2)
 			c.rep.floor("R-OPTW", 20)
 		},
